@@ -118,7 +118,8 @@ def rule_api(chk: Check, model, rid: str, cls_qual: str, has_start: bool):
             chk.add(rid, "run starts only on the first call", flow.equivalent(st[1], S("self._initial_step")), f"start() in run() is guarded by {T.show(st[1])[:80]}, expected self._initial_step", chk.loc(fi, st[4].node))
         ru, rs = seq[-2], seq[-1]
         chk.add(rid, "run: stages unconditional", ru[1] == T.TRUE and rs[1] == T.TRUE, "run_until_supervisor / run_supervisor must run on every call of run()", chk.loc(fi))
-        chk.add(rid, "run: supervisor runs its own step", len(rs[2]) == 1 and not rs[3] and rs[2][0] == ru[4].term, "run() must call run_supervisor(graph_state) without an override, on the result of run_until_supervisor", chk.loc(fi, rs[4].node))
+        b_ = model.bind_call(f"{cls_qual}.run_supervisor", rs[2], rs[3])
+        chk.add(rid, "run: supervisor runs its own step", set(b_) == {"graph_state"} and b_["graph_state"] == ru[4].term, "run() must call run_supervisor(graph_state) without an override, on the result of run_until_supervisor", chk.loc(fi, rs[4].node))
         chk.add(rid, "run returns the supervisor stage's result", r.ret == rs[4].term, f"run() returns {T.show(r.ret)[:100]}", chk.loc(fi))
     # reset
     fi, r, seq = api["reset"]
@@ -139,7 +140,9 @@ def rule_api(chk: Check, model, rid: str, cls_qual: str, has_start: bool):
     chk.add(rid, "step sequence", names == want and all(s[1] == T.TRUE for s in seq), f"step() performs {names}, expected {want} unconditionally", chk.loc(fi))
     if names == want:
         rs, ru = seq
-        chk.add(rid, "step: override forwarded", rs[2] == (gs, S("step_state"), S("output")), f"run_supervisor gets {[T.show(a) for a in rs[2]]}, expected (graph_state, step_state, output)", chk.loc(fi, rs[4].node))
+        b_ = model.bind_call(f"{cls_qual}.run_supervisor", rs[2], rs[3])  # (arguments by parameter, however they were passed)
+        chk.add(rid, "step: override forwarded", (b_.get("graph_state"), b_.get("step_state"), b_.get("output")) == (gs, S("step_state"), S("output")) and len(b_) == 3,
+                f"run_supervisor gets {[(k, T.show(a)) for k, a in b_.items()]}, expected (graph_state, step_state, output)", chk.loc(fi, rs[4].node))
         chk.add(rid, "step: stage input", ru[2] == (rs[4].term,), "run_until_supervisor must continue from run_supervisor's result", chk.loc(fi, ru[4].node))
         ret = r.ret
         ok = ret[0] == "tuple" and len(ret[1]) == 2 and ret[1][0] == ru[4].term and mentions(ret[1][1], "supervisor") and _ss_of(ret[1][1], ret[1][0])
